@@ -67,7 +67,12 @@ TINY = Fraction(*float(np.finfo(np.double).tiny).as_integer_ratio())
 # the implementation
 # ---------------------------------------------------------------------------------------------
 def _w(a):
-    return None if a is None else np.array(a, dtype=float)
+    # weights reach the code in the caller's dtype: integer weight columns are legitimate input
+    if a is None:
+        return None
+    if len(a) and all(isinstance(v, int) and not isinstance(v, bool) for v in a):
+        return np.array(a, dtype=int)
+    return np.array(a, dtype=float)
 
 
 def run_iter(d, par):
@@ -347,6 +352,12 @@ def compare(got, exp, d2, check_mask=True):
 # generators
 # ---------------------------------------------------------------------------------------------
 def gen_weights(rng, n, k, allow_zero=True):
+    if rng.random() < 0.25:
+        w = [rng.randint(1, 9) for _ in range(n)]          # integer weight column
+        if allow_zero and n > k + 1 and rng.random() < 0.4:
+            for i in rng.sample(range(n), rng.randint(1, max(1, (n - k) // 3))):
+                w[i] = 0
+        return w
     w = [round(rng.uniform(0.2, 5.0), 3) for _ in range(n)]
     if allow_zero and n > k + 1 and rng.random() < 0.4:
         for i in rng.sample(range(n), rng.randint(1, max(1, (n - k) // 3))):
